@@ -558,7 +558,7 @@ def order_independence_stage(self, key):
 
 class C07(Check):
     pid = "C07"
-    lean_modules = ["MTProps.C07", "MTProps.CodeRun", "MTProps.CodeMain"]
+    lean_modules = ["MTProps.C07", "MTProps.CodeRun", "MTProps.CodeMain", "MTProps.CodeState"]
 
     def body(self):
         rng = self.rng
